@@ -1,9 +1,26 @@
 import QV.Driver.Util
 import QV.Driver.Wire
+import QV.Driver.Codes
+import QV.Driver.Name
+import QV.Driver.Rdata
+import QV.Driver.Catalog
+import QV.Driver.Zone
+import QV.Driver.Rrl
+import QV.Driver.Reader
+import QV.Driver.Tsig
+import QV.Driver.Writer
+import QV.Driver.Server
+import QV.Driver.Zonefile
+import QV.Driver.Include
+import QV.Driver.Pool
+import QV.Driver.Framing
+import QV.Driver.Reload
+import QV.Driver.Snapshot
 
 namespace QV.Driver
 
-def handlers : List Handler := [wireHandler]
+def handlers : List Handler :=
+  [wireHandler, codesHandler, nameHandler, rdataHandler, catalogHandler, zoneHandler, rrlHandler, readerHandler, tsigHandler, writerHandler, serverHandler, zonefileHandler, includeHandler, poolHandler, framingHandler, reloadHandler, snapshotHandler]
 
 def dispatch (line : String) : String :=
   match line.trimAscii.toString.splitOn " " with
